@@ -696,7 +696,7 @@ func (fv *FuncVC) loopHeader(fr *Frame, h *ssa.BasicBlock, cur *State, reach str
 	} else {
 		general, gall := fv.loopGeneralWrites(fr, li)
 		for _, k := range keys {
-			hk := HeapKey{k, heapKeySorts[k]}
+			hk := HeapKey{Key: k, Sort: heapKeySorts[k]}
 			before := fv.m.heapGet(cur, hk)
 			after := fv.m.heapHavoc(cur, hk)
 			if !gall && !general[k] && strings.HasPrefix(string(hk.Sort), "(Array Int ") {
